@@ -67,17 +67,18 @@ package container
 
 //@ func container.(*containerServer).serve props C10 C16
 //@   arith int
-//@   requires P.st == 0
-//@   assigns P.st, S._all, FD._all, W._all, K._all, O._all, R._all, U._all
+//@   requires P.st == 0 && WA.tokens == 0
+//@   assigns P.st, S._all, FD._all, W._all, K._all, O._all, R._all, U._all, WA._all
 //@   ensures @C16 result != nil
-//@   loop 0: invariant P.st == 0 || P.st == 9
+//@   loop 0: invariant (P.st == 0 && WA.tokens == 0) || P.st == 9
 
 //@ func container.(*containerServer).handleCmd props C10
 //@   arith int
-//@   requires P.st == recv_next(0, int(cmd.Cmd))
+//@   requires P.st == recv_next(0, int(cmd.Cmd)) && WA.tokens == 0
 //@   requires int(cmd.Cmd) == 5 ==> (cmd.ExecCmd != nil && len(msg.Fds) < 1048576 && (cmd.ExecCmd.Seccomp == nil || (len(cmd.ExecCmd.Seccomp) >= 1 && len(cmd.ExecCmd.Seccomp) <= 65535)) && forall j int :: soff(msg.Fds) <= j && j < soff(msg.Fds) + len(msg.Fds) ==> 0 <= cell(msg.Fds, j) && cell(msg.Fds, j) < 2147483648)
-//@   assigns P.st, S._all, FD._all, W._all, K._all, O._all, R._all, U._all
+//@   assigns P.st, S._all, FD._all, W._all, K._all, O._all, R._all, U._all, WA._all
 //@   ensures result == nil ==> P.st == 0 || P.st == 9
+//@   ensures result == nil && P.st != 9 ==> WA.tokens == 0
 //@   case int(cmd.Cmd) == 5 && cmd.ExecCmd != nil:
 //@     assigns all(cmd.ExecCmd.Argv)
 //@   endcase
@@ -133,11 +134,16 @@ package container
 //@   ensures result == nil ==> P.st == 0 || P.st == 9
 //@   callsite (*containerServer).sendReply: assert @C14 len(rep.BatchErrors) == len(links)
 
+// after the start: whichever of kill / child exit comes first, everything in the container is killed
+// (kill(-1, SIGKILL)), the wait loop is asked once to reap all and its acknowledgement is consumed, and the
+// awaited pid's result is consumed, before the function returns nil
 //@ func container.(*containerServer).handleExecveStarted props C10 C12
 //@   arith int
-//@   requires P.st == 5
-//@   assigns P.st, W._all
+//@   requires P.st == 5 && WA.tokens == 0
+//@   assigns P.st, W._all, WA.tokens, WA.pids
 //@   ensures result == nil ==> P.st == 0 || P.st == 9
+//@   ensures @C10 @C12 result == nil && P.st != 9 ==> WA.tokens == 0 && WA.pids == old(WA.pids)
+//@   callsite syscall.Kill: assert @C12 pid == -1 && int(sig) == 9
 
 // The sync callback: reply with the pid (sync), then wait for ok / kill.
 //@ func container.(*containerServer).handleExecve$1 props C07 C10
@@ -198,13 +204,16 @@ package container
 // received descriptor is closed; the runner literal always drops capabilities and sets no_new_privs.
 //@ func container.(*containerServer).handleExecve props C04 C10 C12
 //@   arith int
-//@   requires P.st == 2 && c != nil && cmd != nil
+//@   requires P.st == 2 && c != nil && cmd != nil && WA.tokens == 0
 //@   requires forall j int :: soff(msg.Fds) <= j && j < soff(msg.Fds) + len(msg.Fds) ==> 0 <= cell(msg.Fds, j) && cell(msg.Fds, j) < 2147483648
 //@   requires len(msg.Fds) < 1048576
 //@   requires cmd.Seccomp == nil || (len(cmd.Seccomp) >= 1 && len(cmd.Seccomp) <= 65535)
-//@   assigns U._all, P.st, S.cb_calls, FD.closed, FD.cloexec, W.kill_pid, W.kill_count, W.reaped, FD.handed, all(cmd.Argv), K.fdt, K.clo, K.pid, K.secbits, K.caps_empty, K.nnp, K.filter, K.filter_flags, K.uid, K.uid_set, K.gid, K.gid_set, K.groups_set, K.ngroups, K.groups_ptr, K.sid_new, K.ctty, K.cwd, K.host, K.hostlen, K.host_issued, K.domain, K.domainlen, K.domain_issued, K.clone_flags, K.clone3, K.clone_cgroup, K.mnt_src, K.mnt_type, K.mnt_flags, K.mnt_data, K.mnt_done, K.remount, K.remount_done, K.nmount, K.pivoted, K.pivot_new, K.pivot_old, K.old_detached, K.old_removed, K.rl_cur, K.rl_max, K.rl_set, K.traceme, K.stopped_self, K.sync_stage, K.sync_wfile, K.sync_rfile, K.idmap_read, K.unshare_cgroup_issued, K.last_trap, K.last_errno, K.reported, K.reported_loc, K.reported_err, K.reported_idx, K.exec_attempts
+//@   assigns WA.tokens, WA.pids, U._all, P.st, S.cb_calls, FD.closed, FD.cloexec, W.kill_pid, W.kill_count, W.reaped, FD.handed, all(cmd.Argv), K.fdt, K.clo, K.pid, K.secbits, K.caps_empty, K.nnp, K.filter, K.filter_flags, K.uid, K.uid_set, K.gid, K.gid_set, K.groups_set, K.ngroups, K.groups_ptr, K.sid_new, K.ctty, K.cwd, K.host, K.hostlen, K.host_issued, K.domain, K.domainlen, K.domain_issued, K.clone_flags, K.clone3, K.clone_cgroup, K.mnt_src, K.mnt_type, K.mnt_flags, K.mnt_data, K.mnt_done, K.remount, K.remount_done, K.nmount, K.pivoted, K.pivot_new, K.pivot_old, K.old_detached, K.old_removed, K.rl_cur, K.rl_max, K.rl_set, K.traceme, K.stopped_self, K.sync_stage, K.sync_wfile, K.sync_rfile, K.idmap_read, K.unshare_cgroup_issued, K.last_trap, K.last_errno, K.reported, K.reported_loc, K.reported_err, K.reported_idx, K.exec_attempts
 //@   ensures @C10 result == nil ==> P.st == 0 || P.st == 9
+//@   ensures @C10 @C12 result == nil && P.st != 9 ==> WA.tokens == 0 && WA.pids == old(WA.pids)
 //@   ensures @C12 forall k int :: 0 <= k && k < len(msg.Fds) ==> FD.closed[msg.Fds[k]]
+//@   callsite syscall.Kill: assert @C12 pid == -1 && int(sig) == 9
+//@   callsite handleExecve$1 when cmd.SyncAfter: assert @C07 pid == 1
 //@   callsite (*Runner).Start: assert @C04 r.NoNewPrivs && r.DropCaps && r.SyncFunc == syncFunc && r.Seccomp == seccomp && r.Credential == cred
 
 
@@ -215,6 +224,7 @@ package container
 //@   arith int
 //@   assigns O.checked, O.checked_ok
 //@   abstracts O.checked == path && O.checked_ok == (result == nil)
+//@   callsite return: assert @C14 result == nil ==> (err != nil && errs_is(err, os.ErrNotExist)) || (err == nil && isreg(fmode(fi)))
 
 //@ func container.(*containerServer).handleOpen props C10 C12 C14
 //@   arith int
@@ -443,3 +453,34 @@ package container
 //@   callsite bytes.NewBuffer: assert @C19 len(buf) <= len(s.buff)
 //@   loop 0: invariant -1 <= rangeindex && rangeindex < len(msg.Fds) && len(msg.Fds) == S.nrights && (forall k int :: 0 <= k && k < S.nrights ==> msg.Fds[k] == S.right[k])
 //@   loop 0: invariant forall k int :: 0 <= k && k <= rangeindex ==> FD.closed[S.right[k]]
+
+// ---- receive loops: gob decodes INTO the value it is given and leaves fields that were not sent
+// untouched, so every message must be decoded into a zero value (C10, C14: no request or reply inherits
+// fields of an earlier one) ----
+//@ func chan.send:container.containerServer.recvCh
+//@   assumed "channel role: hand the decoded command to the serve loop"
+//@   pure
+//@ func container.(*containerServer).socketError
+//@   trusted "records the transport error once and closes done (sync.Once closure)"
+//@   pure
+//@ func container.(*containerServer).recvLoop props C10 C14
+//@   arith int
+//@   requires c != nil && c.socket != nil && c.socket.Socket != nil && c.socket.Socket.UnixConn != nil && len(c.socket.Socket.recvBuff) == 4096 && c.socket.decoder != nil
+//@   requires sep(c, c.socket) && sep(c.socket, c.socket.Socket) && sep(c, c.socket.Socket)
+//@   assigns all(c.socket.buff), all(c.socket.Socket.recvBuff), c.socket.recvBuff.Buffer, S._all, FD._all
+//@   callsite (*socket).RecvMsg: assert @C10 @C14 ref_as(e, cmd).DeleteCmd == nil && ref_as(e, cmd).ExecCmd == nil && ref_as(e, cmd).ConfCmd == nil && len(ref_as(e, cmd).OpenCmd) == 0 && len(ref_as(e, cmd).SymlinkCmd) == 0 && int(ref_as(e, cmd).Cmd) == 0
+//@   loop 0: invariant c == old(c) && c.socket == old(c.socket) && c.socket.Socket == old(c.socket.Socket) && c.socket.Socket.UnixConn == old(c.socket.Socket.UnixConn) && len(c.socket.Socket.recvBuff) == 4096 && c.socket.decoder == old(c.socket.decoder)
+
+//@ func chan.send:container.container.recvCh
+//@   assumed "channel role: hand the decoded reply to the caller in flight"
+//@   pure
+//@ func container.(*container).socketError
+//@   trusted "records the transport error once and closes done (sync.Once closure)"
+//@   pure
+//@ func container.(*container).recvLoop props C10 C14
+//@   arith int
+//@   requires c != nil && c.socket != nil && c.socket.Socket != nil && c.socket.Socket.UnixConn != nil && len(c.socket.Socket.recvBuff) == 4096 && c.socket.decoder != nil
+//@   requires sep(c, c.socket) && sep(c.socket, c.socket.Socket) && sep(c, c.socket.Socket)
+//@   assigns all(c.socket.buff), all(c.socket.Socket.recvBuff), c.socket.recvBuff.Buffer, S._all, FD._all
+//@   callsite (*socket).RecvMsg: assert @C10 @C14 ref_as(e, reply).Error == nil && ref_as(e, reply).ExecReply == nil && len(ref_as(e, reply).BatchErrors) == 0
+//@   loop 0: invariant c == old(c) && c.socket == old(c.socket) && c.socket.Socket == old(c.socket.Socket) && c.socket.Socket.UnixConn == old(c.socket.Socket.UnixConn) && len(c.socket.Socket.recvBuff) == 4096 && c.socket.decoder == old(c.socket.decoder)
